@@ -85,6 +85,7 @@ pub fn info() -> PropInfo {
             "legacy.loc.based",
             "legacy.loc.absolute",
             "lnop.set_address.mid_sequence",
+            "lnop.advance_before_set_address",
             "lnop.fixed_advance_pc",
             "lnop.define_file",
             "lnop.const_add_pc",
